@@ -7,7 +7,9 @@ from vlib.runner import fail, Violation
 LEVEL = "exploration"
 RULE = ("Enumeration, no sampling: (a) EVERY constructor argument of every shipped family (Hill 0..999, Shekel "
         "0..999, Grishagin 1..100, GKLS 2..5 x 1..100, Shekel4 1..3, Rastrigin and XSquared dimension 1..12, "
-        "StronginC3 = 2427 instances) is constructed and its metadata checked; (b) EVERY row of the 2 x 1000 Hill / "
+        "StronginC3 = 2427 instances) is constructed and its metadata checked, and the metadata arrays of a second instance of the same member are "
+        "overwritten in place (box narrowed, variable renamed, optimum record moved): the first instance and a third, "
+        "newly built one must still declare what the first declared; (b) EVERY row of the 2 x 1000 Hill / "
         "Shekel tables x {minimum, maximum, Lipschitz constant} is recomputed from the function on a uniform grid "
         "(quick 1e6, thorough 4e6 points) with bounded Brent polishing of every grid-local extremum, the vectorised "
         "formula being cross-checked against the real Calculate on pseudo-random points of the same run. "
